@@ -19,7 +19,7 @@ RULE = ("catalogue of invalid-input classes, each instantiated over lattice posi
         "and degenerate-by-tolerance (1e-12): zero-length Line/Segment/HalfLine in every constructor form; polygons with <3 "
         "distinct, collinear, non-coplanar vertices; planes from zero normal / collinear points / dependent vectors / (0,0,0,d); "
         "dependent Parallelogram / Parallelepiped vectors; Pyramid apex in the base plane; non-closed face sets (faces removed, "
-        "translated, dangling extra face, two bodies, duplicated face); circles with n<3; collinear helper on 0/1/non-collinear "
+        "translated, dangling extra face, two bodies, duplicated face, one face replaced by a copy of another); circles with n<3; collinear helper on 0/1/non-collinear "
         "points; move() with non-Vector arguments on all seven types; and EVERY unsupported operand-kind pair of intersection / "
         "distance / angle / parallel / orthogonal / volume over 11 kinds (enumerated). A return is a violation for exact-degenerate "
         "input; for degenerate-by-tolerance input only when the returned object fails its invariant hook; distinct by content hash")
@@ -339,9 +339,10 @@ def judge(case):
     if cls == "polyhedron-open":
         ph = gen.rand_polyhedron(r, small=r.random() < 0.6)
         faces = [list(f) for f in ph[2]]
-        form = r.randrange(9)
+        form = r.randrange(10)
         lab = ("face-removed", "two-faces-removed", "face-translated", "dangling-face", "two-bodies", "duplicated-face",
-               "two-loose-polygons", "open-body-plus-loose-polygon", "two-bodies-glued-along-two-edges")[form]
+               "two-loose-polygons", "open-body-plus-loose-polygon", "two-bodies-glued-along-two-edges",
+               "face-replaced-by-a-copy-of-another")[form]
         if form == 8:
             # two parallelepipeds O + {a, b, c} and O + {a, 2b, c - b}: they share the edge [O, O+a] and the opposite
             # edge [O+b+c, O+a+b+c]; every edge lies in 2 or 4 faces and V - E + F = 12 - 22 + 12 = 2
@@ -392,6 +393,17 @@ def judge(case):
             faces += [[K.add(v, shift) for v in f] for f in ph2[2]]
         elif form == 5:
             faces.append(list(faces[r.randrange(len(faces))]))
+        elif form == 9:
+            # one face missing, another one (with as many vertices, if there is one) listed twice: the same vertices, the
+            # same edges, as many faces and as many face-edge incidences as the closed body, V - E + F = 2 - yet the edges of
+            # the missing face lie in one face only and those of the doubled face in three
+            i = r.randrange(len(faces))
+            gone = faces.pop(i)
+            same = [f for f in faces if len(f) == len(gone)] or faces
+            dup = list(r.choice(same))
+            if r.random() < 0.5:
+                dup = dup[1:] + dup[:1]
+            faces.append(dup)
         elif form == 6:
             # two disjoint polygons: V - E + F = n - n + 1 twice = 2, yet nothing is closed
             f = faces[r.randrange(len(faces))]
@@ -406,6 +418,7 @@ def judge(case):
 
         def build():
             return G.ConvexPolyhedron(tuple(G.ConvexPolygon(tuple(_P(G, v) for v in f)) for f in faces))
+        mu.cell("open-face-set:" + lab)
         _expect_raise(mu, build, cls + ":" + lab, "ConvexPolyhedron from a face set that is not a closed polyhedron (%s)" % lab)
         return mu.result()
     if cls == "circle-small-n":
